@@ -154,7 +154,7 @@ pub fn tokenise(stream: &[u8]) -> Tokenised {
     let mut delimiters = Vec::new();
     let mut i = 0;
     let mut seg_start: Option<usize> = None;
-    let mut close = |seg_start: &mut Option<usize>, end: usize, segments: &mut Vec<Segment>| {
+    let close = |seg_start: &mut Option<usize>, end: usize, segments: &mut Vec<Segment>| {
         if let Some(s) = seg_start.take() {
             segments.push(Segment {
                 start: s as u64,
